@@ -15,7 +15,7 @@ _maps = {}
 def build(f, kind, keys, impl="C"):
     cls = f.cls(kind, impl)
     if f.name not in _maps:
-        _maps[f.name] = (f.keymap("int" if f.kk == "O" else None), f.valmap())
+        _maps[f.name] = (f.keymap("str" if f.kk == "O" else None), f.valmap())
     km, vm = _maps[f.name]
     t = cls()
     for k in keys:
@@ -95,6 +95,13 @@ def main():
             res = {"id": job["id"], "nalloc": nalloc, "ref_exc": ref_exc, "fails": []}
             for n in range(1, nalloc + 1):
                 t, km, vm = build(f, kind, keys)
+                # the key / value OBJECTS the container holds (object families): one more reference each, ours
+                objs = []
+                if f.kk == "O":
+                    objs += list(t.keys())
+                if f.vk == "O" and kind in ("Bucket", "BTree"):
+                    objs += list(t.values())
+                rc_before = [sys.getrefcount(o) for o in objs]
                 cmod._verif_fail_alloc(0)
                 cmod._verif_fail_alloc(n)
                 print(json.dumps({"arm": [job["id"], n]})); sys.stdout.flush()
@@ -120,6 +127,11 @@ def main():
                             allowed = now == before or now == after
                         if not allowed:
                             bad = "partial-change"
+                        elif op[0] != "setstate" and any(a < b for a, b in zip([sys.getrefcount(o) for o in objs], rc_before)):
+                            # a DROP only: a completed split legitimately adds a reference (the key becomes a separator)
+                            # (every object stored before is still stored: no operation but __setstate__ removes one)
+                            d = [a - b for a, b in zip([sys.getrefcount(o) for o in objs], rc_before) if a != b]
+                            bad = "refcount-changed:%d stored object(s) changed their reference count by %r although each of them is still stored exactly as before" % (len(d), sorted(set(d)))
                         else:
                             if kind in ("BTree", "TreeSet"):
                                 t._check()
